@@ -554,7 +554,7 @@ MODELS = {
     "C02": [("RsSession", "RsSession", "RsSession_thorough"), ("ApiModel_MC", "ApiModel", "ApiModel"),
             ("RsCodecModel", "RsCodec_quick", "RsCodec_gf16"), ("RsCodecModel", "RsCodec_gf256_quick", "RsCodec_gf256")],
     "C08": [("ApiModel_MC", "ApiModel", "ApiModel"), ("LdpcIt_MC", "LdpcIt_quick", "LdpcIt_thorough"), ("LdpcIt_MC", "LdpcIt_quick_cb", "LdpcIt_quick_cb"),
-            ("LdpcMl_MC", "LdpcMl_quick", "LdpcMl_thorough"), ("LdpcMl_MC", "LdpcMl_quick_cb", "LdpcMl_quick_cb")],
+            ("LdpcMl_MC", "LdpcMl_quick", "LdpcMl_thorough"), ("LdpcMl_MC", None, "LdpcMl_quick_cb")],
     "C10": [("RsSession", "RsSession", "RsSession_thorough"), ("LdpcMl_MC", "LdpcMl_quick", "LdpcMl_thorough"),
             ("ApiModel_MC", "ApiModel", "ApiModel")],
     "C11": [("RsSession", "RsSession", "RsSession_thorough")],
@@ -594,6 +594,8 @@ def run(pid, tier):
         mc_runs = []
         for (spec, cq, ct) in MODELS.get(pid, []):
             cfg = cq if tier == "quick" else ct
+            if cfg is None:
+                continue
             mc = vlib.run_tlc(os.path.join(vlib.SPEC, spec + ".tla"), os.path.join(vlib.SPEC, cfg + ".cfg"),
                               os.path.join(bdir, "mc_" + cfg), workers=8, xmx="6g", timeout=3000)
             if mc.violated or "Model checking completed. No error" not in mc.out:
